@@ -215,6 +215,8 @@ func (this *RaftGroup) run() {
 			}
 		case <-ticker.C:
 			this.raft.Tick()
+		case done := <-this.verifSnapshotC():
+			done <- this.trySnapshot(lastAppliedIdx, 0)
 		case rd := <-this.raft.Ready():
 			if rd.SoftState != nil {
 				this.raftLeaderId = atomic.LoadUint64(&rd.SoftState.Lead)
